@@ -34,6 +34,7 @@ def tree_world(rnd, cb=True, lists=True, softs=False):
         top_fields.append({"name": "ol", "kind": "objlist", "cls": "Mid", "n": 2, "rand": ol_rand})
         top_blocks.append({"name": "c4", "dynamic": False, "body": [E(B("lt", F("ol[0].x"), F("ol[1].x")))]})
         top_blocks.append({"name": "c5", "dynamic": False, "body": [E(B("ne", F("ol[1].lf.x"), F("s1.x")))]})
+    top_blocks.append({"name": "td", "dynamic": True, "body": [E(B("ne", F("y"), F("s1.x"))), E(B("le", F("y"), lit(3)))]})
     top = {"base": "", "cb": cb, "fields": top_fields, "blocks": top_blocks}
     world = {"classes": {"Leaf": leaf, "Mid": mid, "Top": top},
              "population": [{"id": "o1", "cls": "Top"}, {"id": "o2", "cls": "Top"}]}
@@ -135,7 +136,7 @@ def family_ctor_fault(tier, seed, n=None):
         rnd = random.Random(6161 * 100003 + t + (0 if t < n // 2 else seed * 977))
         world, info = tree_world(rnd)
         world["population"].append({"id": "o3", "cls": "Top"})
-        cls, blk = rnd.choice([("Top", "c1"), ("Top", "c2"), ("Mid", "mc"), ("Leaf", "lc"), ("Top", "c3")])
+        cls, blk = rnd.choice([("Top", "c1"), ("Top", "c2"), ("Mid", "mc"), ("Leaf", "lc"), ("Top", "c3"), ("Top", "td"), ("Top", "td")])
         ops = [{"op": "construct", "o": "o1"},
                {"op": "call", "call": mcall("o1")},
                {"op": "construct", "o": "o2", "fault": {"cls": cls, "blk": blk, "pos": rnd.randint(0, 1)}},
@@ -210,4 +211,43 @@ def family_siblings(tier, seed, n=None):
             ops.append({"op": "probe", "call": wcall([], "o1"), "paths": "ALL:o1", "mode": "around", "nsol": 4, "cap": 200})
         ops.append({"op": "probe", "call": wcall([], "o1"), "paths": "ALL:o1", "cap": 600})
         out.append({"id": "SB/%s/%d" % ("core" if core else "s%d" % seed, t), "world": world, "ops": ops, "tags": []})
+    return out
+
+
+# ------------------------------------------------------------------------------------------
+# callbacks defined only in a derived class; pre_randomize assigning the non-random bound of a random-size list (C17)
+# ------------------------------------------------------------------------------------------
+def family_cb_special(tier, seed, n=None):
+    out = []
+    n = n or (6 if tier == "quick" else 40)
+    for t in range(n):
+        rnd = random.Random(1770 * 100003 + t + (0 if t < n // 2 else seed * 131))
+        base = {"base": "", "cb": False, "fields": [fld("x", 2, False), fld("z", 2, False, rand=False, init=1)],
+                "blocks": [{"name": "bc", "dynamic": False, "body": [E(B("ne", F("x"), F("z")))]}]}
+        der = {"base": "Base", "cb": True, "fields": [fld("w", 2, False)],            # the hooks exist in the derived class only
+               "blocks": [{"name": "dc", "dynamic": False, "body": [E(B("le", F("w"), F("x")))]}]}
+        top = {"base": "", "cb": True,
+               "fields": [fld("y", 2, False), fld("k", 2, False, rand=False, init=0),
+                          {"name": "d1", "kind": "obj", "cls": "Der", "rand": True},
+                          {"name": "b1", "kind": "obj", "cls": "Base", "rand": True},
+                          {"name": "dl", "kind": "objlist", "cls": "Der", "n": 2, "rand": True},
+                          {"name": "rl", "kind": "list", "w": 2, "signed": False, "rand": True, "randsz": True, "init": [], "cap": 5}],
+               "blocks": [{"name": "c1", "dynamic": False, "body": [E(B("le", F("d1.x"), F("y")))]},
+                          # the size of the random-size list is bounded by a non-random field that pre_randomize assigns
+                          {"name": "c2", "dynamic": False, "body": [E(B("eq", {"k": "size", "l": "rl"}, B("add", F("k"), lit(1))))]}]}
+        world = {"classes": {"Base": base, "Der": der, "Top": top},
+                 "population": [{"id": "o1", "cls": "Top"}, {"id": "d0", "cls": "Der"}]}
+        ops = [{"op": "construct", "o": "o1"}, {"op": "construct", "o": "d0"}]
+        kv = 0
+        for i in range(rnd.randint(4, 6)):
+            r = rnd.random()
+            if r < 0.25:
+                ops.append({"op": "call", "call": mcall("d0")})
+            elif r < 0.4:
+                ops.append({"op": "call", "call": {"kind": "free", "roots": ["o1.d1"], "owner": "", "inline": []}})
+            else:
+                kv = (kv + rnd.choice([1, 1, 2])) % 4 if rnd.random() < 0.7 else rnd.randrange(4)
+                ops.append({"op": "call", "call": rnd.choice([mcall("o1"), wcall([E(B("ne", F("y"), lit(0)))], "o1")]),
+                            "cb_script": [{"ph": "pre", "o": "o1", "assign": "o1.k", "v": bits(kv, 2)}]})
+        out.append({"id": "T17/special/%d" % t, "world": world, "ops": ops, "tags": []})
     return out
